@@ -140,7 +140,7 @@ func runOp(s *Session, a Args) (res Res) {
 }
 
 // sweep ops make thousands of library calls, each under its own per-call deadline
-var longOps = map[string]bool{"ConcurrentSign": true, "ApiSweep": true, "ConcurrentVerify": true, "SignedMutSweep": true, "Chain": true, "ByteSweep": true, "MappingBodies": true, "RandomSweep": true, "CodeSweep": true, "PartialMethods": true, "ZeroMethods": true,
+var longOps = map[string]bool{"ConcurrentSign": true, "ApiSweep": true, "ConcurrentVerify": true, "SignedMutSweep": true, "Chain": true, "ByteSweep": true, "CrossSweep": true, "MappingBodies": true, "RandomSweep": true, "CodeSweep": true, "PartialMethods": true, "ZeroMethods": true,
 	"Sweep": true, "Concurrent": true, "EncRange": true, "DecChunks": true, "TextEncChunks": true, "TextDecMutate": true, "TextGuard": true, "TextBig": true, "Tables": true}
 
 func opDeadline(op string) time.Duration {
